@@ -91,6 +91,28 @@ def must_match(ctx, rule, prog, short, patterns, cfg, site, msg, rename=lambda s
     return False
 
 
+def must_match_any(ctx, rule, prog, short, alternatives, cfg, site, msg, rename=lambda s: s, guards=False):
+    """like must_match with several accepted event lists (spellings of the same steps)"""
+    f = prog.fn(short)
+    if f is None or not f.has_mir:
+        ctx.violate(rule, short, "anchor-missing", "?", "function not found", cfg)
+        return False
+    ev = events(f, rename, guards=guards)
+    for patterns in alternatives:
+        variants = [[]]
+        for p in patterns:
+            if p.startswith("?"):
+                variants = [v + [p[1:]] for v in variants] + [list(v) for v in variants]
+            else:
+                variants = [v + [p] for v in variants]
+        if any(len(ev) == len(v) and all(re.fullmatch(p, e) for p, e in zip(v, ev)) for v in variants):
+            ctx.ok(rule, short, site, "events: " + " ; ".join(e[:70] for e in ev), cfg)
+            return True
+    d = "found %d events, none of the %d accepted forms:\n" % (len(ev), len(alternatives)) + "\n".join("  " + e[:200] for e in ev[:12])
+    ctx.violate(rule, short, site, f.loc, msg, cfg, detail=d)
+    return False
+
+
 def contains(ctx, rule, prog, short, patterns, cfg, site, msg, rename=lambda s: s, forbidden=(), guards=False):
     """every pattern matches some event, in order; no forbidden pattern matches any event"""
     f = prog.fn(short)
